@@ -501,6 +501,9 @@ pub fn explore(tree: &PTree, p: &Params, cap: usize) -> Explored {
         let s = g.states[head].clone();
         let here = head as u32;
         head += 1;
+        if head % 4096 == 0 {
+            crate::core::tick();
+        }
         if all_exited(&s) {
             out.terminal_states += 1;
             if !s.quit_returned {
@@ -575,6 +578,9 @@ pub fn explore(tree: &PTree, p: &Params, cap: usize) -> Explored {
             continue;
         }
         call.push((root, 0));
+        if root % 4096 == 0 {
+            crate::core::tick();
+        }
         while let Some(&mut (v, ref mut ei)) = call.last_mut() {
             let vu = v as usize;
             if *ei == 0 {
@@ -704,7 +710,12 @@ pub fn covering_schedules(tree: &PTree, p: &Params, max_paths: usize, k: usize, 
     let mut out = vec![];
     let mut capped = false;
     let mut leaves = 0usize;
+    let mut popped = 0usize;
     while let Some(f) = stack.pop() {
+        popped += 1;
+        if popped % 4096 == 0 {
+            crate::core::tick();
+        }
         let (en, _) = f.emu.enabled(f.arriving);
         let mut extended = false;
         for &w in en.iter() {
